@@ -141,10 +141,37 @@ UNITS += [
         /*@success_only_after_the_writer_was_joined*/ r is Ok ==> WRITER_JOINED() && final(self).file_writer is None,
 """),
 ]
+
+RIXP = "crates/core/src/commands/repair/index.rs"
+UNITS += [
+    Unit(name="repair_index_order", file=RIXP, kind="block", within="pub(crate) fn repair_index<S: Open>(",
+         anchor="for index in be.stream_all::<IndexFile>(&p)? {", block_end="@fn_end",
+         block_sig="fn repair_index_order(be: &VIdxBe, repo: &VRepoR3, mut checker: PackCheckerR, opts: RepairIndexOptions, dry_run: bool, p: ProgressR, mut changed_index_files: Vec<(Id, IndexFileR)>, w: &mut RepairIdxWorld) -> (r: RusticResult<()>)",
+         block_tail="",
+         functions=["commands::repair::index::repair_index (after the append-only guard: check every index file, re-read pack headers, write the rebuilt index, replace the modified index files)"],
+         rewrites=[
+             Rw("for index in be.stream_all::<IndexFile>(&p)? {", "let vstream = be.vstream_all_index(&p)?; for index in it: vstream.into_iter() {", why="channel stream -> vector of per-file results; Verus for-loop syntax"),
+             Rw("checker.check_pack(index, opts.read_all)", "checker.vcheck_pack(index, opts.read_all, w)", why="PackChecker::check_pack (unit of C12) -> stub: records whether an existing pack was queued for re-reading"),
+             Rw(r"let pack_read_header = checker\.into_pack_to_read\(\);.*?\n        p\.inc\(1\);\n    \}\n", "vreread_headers(checker);\n", regex=True,
+                why="ELIDED: warm-up and the header re-reading loop (PackHeader::from_file is a unit of C08; Indexer::add_with of C07): no removal of anything in it"),
+             Rw("indexer.write().unwrap().finalize()?;", "vindexer_finalize_rebuilt(w)?;", why="RwLock guard + Indexer::finalize -> stub: when it succeeds the re-read packs' entries are in a stored index file"),
+             Rw("for (index_id, new_index) in changed_index_files {", "for e in it2: changed_index_files.iter() { let (index_id, new_index) = (e.0, &e.1);", why="by-value iteration -> by reference; Verus for-loop syntax"),
+             Rw("be.save_file(&new_index)?", "be.save_file(new_index)?", why="reference adjustment after by-reference iteration"),
+             Rw("be.remove(FileType::Index, &index_id, true)?;", "be.vremove_index(&index_id, w)?;", count=None, why="remove of a stored index file -> effectful stub: PRECONDITION 'no existing pack is left without an index entry'"),
+         ],
+         contract="""
+    requires !old(w).queued@,
+    // (implicit obligation, precondition of the index-file removal: a stored index file is removed only when no existing
+    //  pack is left without an entry -- i.e. after the packs queued for re-reading were written to the new index.
+    //  The defect found here -- removal in the first pass -- is fixed)
+""",
+         loops={1: "\n        invariant true,\n", 2: "\n        invariant !w.queued@,\n"}, optional_loops=True,
+         ),
+]
 KANI = []
 META = {"not_covered": [
     "the statement's quantifier (every prefix of every command's storage operations, any single failing operation): only the ordering of the straight-line parts listed under functions is decided",
     "thread pipelines: Packer::new (chunk -> pack), Actor / FileWriterHandle composition (process then index), parallel repack in prune, TreeStreamerOnce",
     "copy, merge, rewrite, forget, config and key changes; instant-delete and early-delete-index modes of prune (explicit waivers)",
-    "the repack branch of prune_repository and Indexer::finalize itself (elided / stub in the prune unit)",
+    "the repack branch of prune_repository, the header re-reading loop of repair_index and Indexer::finalize itself (elided / stubs)",
 ]}
